@@ -10,4 +10,14 @@ PROPS = {
                 assumptions=["tolerance 16*2^-52*Y (2^-23 for f32) with Y the larger bracketing magnitude; "
                              "derived bound of the crate's formula is 11u*Y",
                              "python3 fractions is exact"]),
+    "C02": dict(bin="c02", oracle=True,
+                legs={"quick": [N], "thorough": [N]},
+                gates=[("hist_keys_min", "ordered_pair", 25), ("nontrivial_min", 50)],
+                assumptions=["tolerance = 2^13 * u * (1+rho) * G * amplification of the exact differentiation "
+                             "weights actually used (see DESIGN 2.4 / C02)"]),
+    "C03": dict(bin="c03", oracle=True,
+                legs={"quick": [N], "thorough": [N, ("o0", 0.25)]},
+                gates=[("hist_keys_min", "ordered_pair", 25), ("nontrivial_min", 50)],
+                assumptions=["value tolerance = 2^13 * u * (1+rho) * G * max(1,|t|,|1-t|)^3 (DESIGN 2.4)",
+                             "reference spline: exact moment formulation, sparse Gaussian elimination"]),
 }
